@@ -40,6 +40,18 @@ def gen_cases(rng, tier, boost=1):
         cases.append("S 0 %d" % ((e << 23) | rng.getrandbits(23)))
         cases.append("S 0 %d" % ((e << 23) | rng.choice([0, 1, (1 << 23) - 1])))
         dist["float"] += 2
+    # short mantissas m * 2^k over every binary exponent (17 / 9 digits sit just below a limb step of realToString)
+    import math as _m
+    ns = (1500 if tier == "quick" else 40000) * boost
+    for _ in range(ns):
+        m = rng.randrange(1, 1024) | 1
+        k = rng.randrange(-1074, 971 - m.bit_length())
+        cases.append("R 0 %d" % dl.dbits(_m.ldexp(float(m), k)))
+        dist["double"] += 1
+        m = rng.randrange(1, 1024) | 1
+        k = rng.randrange(-149, 128 - m.bit_length())
+        cases.append("S 0 %d" % dl.fbits(_m.ldexp(float(m), k)))
+        dist["float"] += 1
     nd = (5000 if tier == "quick" else 200000) * boost
     nf = (2500 if tier == "quick" else 100000) * boost
     for _ in range(nd):
